@@ -41,9 +41,8 @@ func (e *Ecosystem) NewVersion(version string) (*Version, error) {
 		return nil, fmt.Errorf("invalid Ruby Gem version: %s", original)
 	}
 
-	// Canonicalize and parse segments
-	canonical := canonicalizeVersion(version)
-	segments, err := parseSegments(canonical)
+	// Parse segments the way Gem::Version does
+	segments, err := parseSegments(version)
 	if err != nil {
 		return nil, fmt.Errorf("failed to parse version %s: %v", original, err)
 	}
@@ -54,145 +53,59 @@ func (e *Ecosystem) NewVersion(version string) (*Version, error) {
 	}, nil
 }
 
-// canonicalizeVersion transforms version string to canonical form
-func canonicalizeVersion(version string) string {
-	// Handle prerelease indicators (-, +)
-	parts := strings.FieldsFunc(version, func(r rune) bool {
-		return r == '-' || r == '+'
-	})
+// segmentPattern splits a version into runs of digits and runs of letters
+// (Gem::Version#segments: scan(/[0-9]+|[a-z]+/i))
+var segmentPattern = regexp.MustCompile(`[0-9]+|[a-zA-Z]+`)
 
-	if len(parts) == 0 {
-		return version
-	}
-
-	// Process main version part
-	main := parts[0]
-	result := addDotsBetweenNumericAndAlpha(main)
-
-	// Add prerelease/build parts back
-	for i := 1; i < len(parts); i++ {
-		if strings.Contains(version, "-"+parts[i]) {
-			result += "-" + addDotsBetweenNumericAndAlpha(parts[i])
-		} else {
-			result += "+" + addDotsBetweenNumericAndAlpha(parts[i])
-		}
-	}
-
-	return result
-}
-
-// addDotsBetweenNumericAndAlpha adds dots between numeric and alphabetic segments
-func addDotsBetweenNumericAndAlpha(s string) string {
-	if len(s) == 0 {
-		return s
-	}
-
-	var result strings.Builder
-	var prev rune
-
-	for i, r := range s {
-		if i > 0 {
-			isCurrentNumeric := r >= '0' && r <= '9'
-			isPrevNumeric := prev >= '0' && prev <= '9'
-
-			// Add dot if transitioning between numeric and alpha
-			if (isCurrentNumeric && !isPrevNumeric) || (!isCurrentNumeric && isPrevNumeric) {
-				if prev != '.' && r != '.' {
-					result.WriteRune('.')
-				}
-			}
-		}
-		result.WriteRune(r)
-		prev = r
-	}
-
-	return result.String()
-}
-
-// parseSegments parses canonical version into segments
+// parseSegments parses a version into its canonical segments, following Gem::Version:
+// build metadata (after +) is ignored, "-" means ".pre.", the string is split at dots and
+// at digit/letter boundaries, and trailing zero segments are dropped both from the leading
+// numeric part and from the part that starts at the first string segment.
 func parseSegments(version string) ([]segment, error) {
-	var segments []segment
-
-	// First handle prerelease/build separators at top level
-	mainPart := version
-	prereleasePart := ""
-	buildPart := ""
-
-	// Extract build metadata (after +)
+	// Build metadata does not take part in comparisons
 	if plusIndex := strings.Index(version, "+"); plusIndex != -1 {
-		buildPart = version[plusIndex+1:]
-		mainPart = version[:plusIndex]
+		version = version[:plusIndex]
 	}
 
-	// Extract prerelease (after -)
-	if dashIndex := strings.Index(mainPart, "-"); dashIndex != -1 {
-		prereleasePart = mainPart[dashIndex+1:]
-		mainPart = mainPart[:dashIndex]
+	version = strings.ReplaceAll(version, "-", ".pre.")
+
+	var segments []segment
+	for _, part := range segmentPattern.FindAllString(version, -1) {
+		segments = append(segments, createSegment(part))
+	}
+	if len(segments) == 0 {
+		return nil, fmt.Errorf("no version segments found")
 	}
 
-	// Parse main version parts (numeric segments)
-	parts := strings.Split(mainPart, ".")
-	for _, part := range parts {
-		if part == "" {
-			continue
-		}
-
-		// Check if this part contains letters (prerelease indicator)
-		if containsLetter(part) {
-			// This is a prerelease segment
-			segments = append(segments, createSegment(part))
-		} else {
-			// This is a numeric segment
-			segments = append(segments, createSegment(part))
+	// Split at the first string segment and canonicalize both halves
+	firstString := len(segments)
+	for i, seg := range segments {
+		if !seg.isNumeric {
+			firstString = i
+			break
 		}
 	}
+	numeric := removeTrailingZeros(segments[:firstString])
+	prerelease := removeTrailingZeros(segments[firstString:])
 
-	// Add prerelease segments
-	if prereleasePart != "" {
-		prereleaseParts := strings.Split(prereleasePart, ".")
-		for _, part := range prereleaseParts {
-			if part != "" {
-				// Prerelease parts are always treated as non-numeric for comparison purposes
-				segments = append(segments, segment{
-					value:     strings.ToLower(part),
-					isNumeric: false,
-					numValue:  0,
-				})
-			}
-		}
-	}
-
-	// Add build segments
-	if buildPart != "" {
-		buildParts := strings.Split(buildPart, ".")
-		for _, part := range buildParts {
-			if part != "" {
-				segments = append(segments, createSegment(part))
-			}
-		}
-	}
-
-	// Remove trailing zero segments from numeric part only
-	segments = removeTrailingZeros(segments)
-
-	return segments, nil
-}
-
-// containsLetter checks if string contains any letter
-func containsLetter(s string) bool {
-	for _, r := range s {
-		if (r >= 'a' && r <= 'z') || (r >= 'A' && r <= 'Z') {
-			return true
-		}
-	}
-	return false
+	canonical := make([]segment, 0, len(numeric)+len(prerelease))
+	canonical = append(canonical, numeric...)
+	canonical = append(canonical, prerelease...)
+	return canonical, nil
 }
 
 // createSegment creates a segment from a string part
 func createSegment(part string) segment {
-	if numValue, err := strconv.Atoi(part); err == nil {
+	if part[0] >= '0' && part[0] <= '9' {
+		// Numeric segment of any length: keep the digits without leading zeros for
+		// comparison, and the integer value when it fits
+		digits := strings.TrimLeft(part, "0")
+		if digits == "" {
+			digits = "0"
+		}
+		numValue, _ := strconv.Atoi(digits)
 		return segment{
-			value:     part,
+			value:     digits,
 			isNumeric: true,
 			numValue:  numValue,
 		}
@@ -206,7 +119,7 @@ func createSegment(part string) segment {
 
 // removeTrailingZeros removes trailing zero segments
 func removeTrailingZeros(segments []segment) []segment {
-	for len(segments) > 1 && segments[len(segments)-1].isNumeric && segments[len(segments)-1].numValue == 0 {
+	for len(segments) > 0 && segments[len(segments)-1].isNumeric && segments[len(segments)-1].value == "0" {
 		segments = segments[:len(segments)-1]
 	}
 	return segments
@@ -217,47 +130,24 @@ func (v *Version) String() string {
 	return v.original
 }
 
-// Compare compares this version with another Ruby Gem version
+// Compare compares this version with another Ruby Gem version (Gem::Version#<=>):
+// segments are compared position by position, a missing segment counting as 0; numbers
+// compare numerically, strings alphabetically, and a string segment is lower than a
+// number segment, so that any version containing a letter is a pre-release of the
+// version formed by the segments before it.
 func (v *Version) Compare(other *Version) int {
-	// First compare the numeric parts
-	vNumeric, vPrerelease := v.splitNumericAndPrerelease()
-	oNumeric, oPrerelease := other.splitNumericAndPrerelease()
-
-	// Compare numeric parts first
-	numericCmp := compareSegmentArrays(vNumeric, oNumeric)
-	if numericCmp != 0 {
-		return numericCmp
-	}
-
-	// If numeric parts are equal, compare prerelease parts
-	// No prerelease > prerelease
-	if len(vPrerelease) == 0 && len(oPrerelease) == 0 {
-		return 0
-	}
-	if len(vPrerelease) == 0 {
-		return 1 // release > prerelease
-	}
-	if len(oPrerelease) == 0 {
-		return -1 // prerelease < release
-	}
-
-	// Both have prerelease, compare them
-	return compareSegmentArrays(vPrerelease, oPrerelease)
+	return compareSegmentArrays(v.segments, other.segments)
 }
 
-// splitNumericAndPrerelease splits version into numeric and prerelease parts
+// splitNumericAndPrerelease splits version into the leading numeric segments and the
+// prerelease part that starts at the first string segment
 func (v *Version) splitNumericAndPrerelease() ([]segment, []segment) {
-	var numeric, prerelease []segment
-
-	for _, seg := range v.segments {
-		if seg.isNumeric {
-			numeric = append(numeric, seg)
-		} else {
-			prerelease = append(prerelease, seg)
+	for i, seg := range v.segments {
+		if !seg.isNumeric {
+			return v.segments[:i], v.segments[i:]
 		}
 	}
-
-	return numeric, prerelease
+	return v.segments, nil
 }
 
 // compareSegmentArrays compares two arrays of segments
@@ -290,17 +180,20 @@ func compareSegmentArrays(a, b []segment) int {
 
 // compareSegments compares two version segments
 func compareSegments(a, b segment) int {
-	// Both numeric
+	// Both numeric: compare as integers of any length (values carry no leading zeros)
 	if a.isNumeric && b.isNumeric {
-		return compareInt(a.numValue, b.numValue)
+		if len(a.value) != len(b.value) {
+			return compareInt(len(a.value), len(b.value))
+		}
+		return strings.Compare(a.value, b.value)
 	}
 
-	// One numeric, one string - in prerelease context, strings have precedence
+	// One numeric, one string - a string segment is lower than a number segment
 	if a.isNumeric && !b.isNumeric {
-		return -1
+		return 1
 	}
 	if !a.isNumeric && b.isNumeric {
-		return 1
+		return -1
 	}
 
 	// Both strings - lexical comparison
